@@ -57,12 +57,23 @@ package builder
 //@ pred RecOK(p *parser) bool = (forall j int :: {p.recoveryStack[j]} 0 <= j && j < len(p.recoveryStack) ==> alloc(p.recoveryStack[j]))
 //@   | && (forall j int, k int :: {p.recoveryStack[j], p.vstack[k]} 0 <= j && j < len(p.recoveryStack) && 0 <= k && k < cap(p.vstack) ==> p.recoveryStack[j] != p.vstack[k])
 //@   | && (forall j int, l string :: {has(p.recoveryStack[j], l)} 0 <= j && j < len(p.recoveryStack) && has(p.recoveryStack[j], l) ==> IsNode(p.recoveryStack[j][l]))
-//@ pred Inv(p *parser) bool = Ctx(p) && SP(p.data, p.pt) && StateOK(p) && MemoInv(p)
+//@ pred Inv(p *parser) bool = Ctx(p) && SP(p.data, p.pt) && StateOK(p) && MemoInv(p) && FarCanon(p)
+// the farthest-failure position is the position OF its offset (line and column included; C12)
+//@ pred FarCanon(p *parser) bool = bnd(p.data, p.maxFailPos.offset) && p.maxFailPos.line == lineAt(p.data, p.maxFailPos.offset) && p.maxFailPos.col == colAt(p.data, p.maxFailPos.offset)
 //@ pred InRule(p *parser) bool = len(p.vstack) >= 1 && len(p.rstack) >= 1
 //@ #if dbg
-//@ pred DbgOK(p *parser) bool = p.ChoiceAltCnt != nil
+// (dbg) the trace indentation never goes negative (strings.Repeat panics on a negative count) and every
+// parse function leaves it as it found it, also when it panics (C06: Debug(true) changes no outcome)
+//@ pred DbgOK(p *parser) bool = p.ChoiceAltCnt != nil && p.depth >= 0
+//@ pred DepthNN(p *parser) bool = p.depth >= 0
+//@ pred DepthBal(p *parser) bool = p.depth == old(p.depth)
+// inside a parse function, after its `if p.debug { defer p.out(p.in(..)) }`
+//@ pred DepthIn(p *parser) bool = p.depth == old(p.depth) + ite(p.debug, 1, 0)
 //@ #else
 //@ pred DbgOK(p *parser) bool = true
+//@ pred DepthNN(p *parser) bool = true
+//@ pred DepthBal(p *parser) bool = true
+//@ pred DepthIn(p *parser) bool = true
 //@ #endif
 
 // The rules table maps exactly the defined rule names, each to a rule carrying that name.
@@ -277,7 +288,8 @@ package builder
 //@   frame C18
 
 //@ func (p *parser) restore(pt savepoint)
-//@   requires [ctx] p != nil
+//@   requires [ctx] p != nil && DepthNN(p)
+//@   ensures [depth C06] DepthBal(p)
 //@   requires [sp C01 C02] SP(p.data, p.pt) && SP(p.data, pt)
 //@   modifies p.pt, p.depth
 //@   ensures [exact C01 C02 C05] p.pt == pt
@@ -300,18 +312,26 @@ package builder
 //@   frame C18
 //@ func (p *parser) printIndent(mark string, s string) (r string)
 //@   requires [ctx] p != nil
+//@   requires [depth C06] p.depth >= 0
 //@   pure
 //@   ensures [id C06] r == s
+//@   safety C06
 //@   frame C18
 //@ func (p *parser) in(s string) (r string)
 //@   requires [ctx] p != nil
+//@   requires [depth C06] p.depth >= 0
 //@   modifies p.depth
 //@   ensures [id C06] r == s
+//@   ensures [deeper C06] p.depth == old(p.depth) + 1
+//@   safety C06
 //@   frame C18
 //@ func (p *parser) out(s string) (r string)
 //@   requires [ctx] p != nil
+//@   requires [depth C06] p.depth >= 1
 //@   modifies p.depth
 //@   ensures [id C06] r == s
+//@   ensures [shallower C06] p.depth == old(p.depth) - 1
+//@   safety C06
 //@   frame C18
 //@ #endif
 
@@ -351,6 +371,7 @@ package builder
 // ======================================================================================
 
 //@ func (p *parser) parseAnyMatcher(any *anyMatcher) (val any, ok bool)
+//@   ensures [depth C06] DepthBal(p)
 //@   requires [inv] Inv(p) && any != nil
 //@   modifies p.pt, *p.errs, p.depth, p.maxFailPos, p.maxFailExpected
 //@   ensures [inv C01] Inv(p)
@@ -365,6 +386,7 @@ package builder
 //@   frame C18
 
 //@ func (p *parser) parseLitMatcher(lit *litMatcher) (val any, ok bool)
+//@   ensures [depth C06] DepthBal(p)
 //@   requires [inv] Inv(p) && lit != nil
 //@   modifies p.pt, *p.errs, p.depth, p.maxFailPos, p.maxFailExpected
 //@   ensures [inv C01] Inv(p)
@@ -374,6 +396,7 @@ package builder
 //@   ensures [monotone C01] p.pt.offset >= old(p.pt.offset)
 //@   ensures [one-event C12] FailEvent(p, ok, old(p.pt.position), lit.want)
 //@   ensures [errs-kept C11] ErrsKept(*p.errs, old(*p.errs))
+//@   loop#1 invariant [depth C06] DepthIn(p)
 //@   loop#1 invariant [sp] SP(p.data, p.pt) && Ctx(p)
 //@   loop#1 invariant [prefix C01] LitPre(lit, p.data, idx, old(p.pt.offset), p.pt.offset)
 //@   loop#1 invariant [mono] p.pt.offset >= old(p.pt.offset) && start == old(p.pt)
@@ -383,6 +406,7 @@ package builder
 //@   frame C18
 
 //@ func (p *parser) parseCharClassMatcher(chr *charClassMatcher) (val any, ok bool)
+//@   ensures [depth C06] DepthBal(p)
 //@   requires [inv] Inv(p) && chr != nil
 //@   requires [ranges-even] len(chr.ranges) % 2 == 0
 //@ #if bl
@@ -398,6 +422,9 @@ package builder
 //@   ensures [nofail-consume C01] !ok ==> p.pt == old(p.pt) && val == nil
 //@   ensures [one-event C12] FailEvent(p, ok, old(p.pt.position), chr.val)
 //@   ensures [errs-kept C11] ErrsKept(*p.errs, old(*p.errs))
+//@   loop#1 invariant [depth C06] DepthIn(p)
+//@   loop#2 invariant [depth C06] DepthIn(p)
+//@   loop#3 invariant [depth C06] DepthIn(p)
 //@   loop#1 invariant [chars C01 C15] forall k int :: 0 <= k && k < idx ==> chr.chars[k] != cur
 //@   loop#1 invariant [frame] p.pt == old(p.pt) && *p.errs == old(*p.errs) && p.maxFailPos == old(p.maxFailPos) && p.maxFailExpected == old(p.maxFailExpected)
 //@   loop#2 invariant [ranges C01 C15] i % 2 == 0 && 0 <= i && forall k int :: 0 <= k && 2*k < i ==> !(chr.ranges[2*k] <= cur && cur <= chr.ranges[2*k+1])
@@ -552,17 +579,20 @@ package builder
 //@   frame C05 C18
 
 //@ func (p *parser) cloneState() (r storeDict)
-//@   requires [ctx] p != nil && StateOK(p)
+//@   requires [ctx] p != nil && StateOK(p) && DepthNN(p)
+//@   ensures [depth C06] DepthBal(p)
 //@   modifies p.depth
 //@   ensures [fresh C05 C18] fresh(r)
 //@   ensures [snapshot C05] StEq(mapdom(r), mapval(r), mapdom(p.cur.state), mapval(p.cur.state))
+//@   loop#1 invariant [depth C06] DepthIn(p)
 //@   loop#1 invariant [copy C05] forall k string :: {has(state, k)} (has(state, k) == sel(visited, k)) && (sel(visited, k) ==> CloneEq(state[k], p.cur.state[k]))
 //@   loop#1 invariant [src C05] state != p.cur.state && state != nil && (forall k string :: {sel(dom1, k)} sel(dom1, k) == has(p.cur.state, k)) && mapval(p.cur.state) == old(mapval(p.cur.state)) && mapdom(p.cur.state) == old(mapdom(p.cur.state))
 //@   safety C11
 //@   frame C05 C18
 
 //@ func (p *parser) restoreState(state storeDict)
-//@   requires [ctx] p != nil && StateOK(p)
+//@   requires [ctx] p != nil && StateOK(p) && DepthNN(p)
+//@   ensures [depth C06] DepthBal(p)
 // each clone is restored at most once and never while it is the current store (linear use)
 //@   requires [linear C05 C18] state != nil && alloc(state) && state != p.cur.state && state != p.cur.globalStore
 //@   modifies p.cur, mapof(p.cur.state), p.depth
@@ -628,12 +658,13 @@ package builder
 //@ func (p *parser) parseRuleMemoize(rule *rule) (val any, ok bool)
 //@   requires [inv] Inv(p) && rule != nil
 //@   modifies PS
-//@   panics [ctx C11] Ctx0(p)
+//@   panics [ctx C11] Ctx0(p) && DepthBal(p)
 //@   ensures [inv C01] Inv(p)
 //@   ensures [peg-rule C01 C06] DR(rule, p.data, old(p.pt.offset), ok, p.pt.offset, val)
 //@   ensures [shape C01 C06] Shape(p, val, ok)
 //@   ensures [store C05] StoreC(p, ok)
 //@   ensures [stacks C02 C11 C14] Stacks(p)
+//@   ensures [depth C06] DepthBal(p)
 //@   ensures [invert C12] p.maxFailInvertExpected == old(p.maxFailInvertExpected)
 //@   ensures [budget C16] p.ExprCnt >= old(p.ExprCnt) && (old(p.ExprCnt) <= p.maxExprCnt ==> p.ExprCnt <= p.maxExprCnt)
 //@   ensures [memoized C06] MemoHas(p, old(p.pt.offset), rule) && MemoGrows(p)
@@ -711,8 +742,9 @@ package builder
 //@   frame C18
 
 // FreshP: a parser as newParser creates it: positioned before the input, nothing recorded yet.
+//@ pred InList(l []string, s string) bool = exists k int :: 0 <= k && k < len(l) && l[k] == s
 //@ pred FreshP(p *parser) bool = Ctx0(p) && StateOK(p) && IsInitPt(p.pt) && len(*p.errs) == 0 && len(p.vstack) == 0 && len(p.rstack) == 0 && len(p.recoveryStack) == 0 && cap(p.vstack) == 0
-//@   | && !p.maxFailInvertExpected && p.maxFailPos.offset == 0 && len(p.maxFailExpected) == 0 && MemoFresh(p)
+//@   | && !p.maxFailInvertExpected && p.maxFailPos.offset == 0 && p.maxFailPos.line == 1 && p.maxFailPos.col == 1 && len(p.maxFailExpected) == 0 && MemoFresh(p)
 //@ #if memo
 //@ pred MemoFresh(p *parser) bool = p.memo == nil
 //@ #else
@@ -738,6 +770,9 @@ package builder
 //@   requires [ctx] p != nil && gr == g && gr != nil && forall k int :: {gr.rules[k]} 0 <= k && k < len(gr.rules) ==> gr.rules[k] != nil
 //@   modifies p.rules
 //@   ensures [table C01] RulesOK(p)
+// a name defined more than once denotes its LAST definition (the generator analyses that one: PrepareGrammar)
+//@   ensures [last-wins C01 C07] forall k int :: {g.rules[k]} 0 <= k && k < len(g.rules) ==> exists j int :: k <= j && j < len(g.rules) && g.rules[j].name == g.rules[k].name && p.rules[g.rules[k].name] == g.rules[j]
+//@   loop#1 invariant [last-wins C01 C07] forall k int :: {g.rules[k]} 0 <= k && k < idx1 ==> exists j int :: k <= j && j < idx1 && g.rules[j].name == g.rules[k].name && p.rules[g.rules[k].name] == g.rules[j]
 //@   loop#1 invariant [acc C01] p.rules != nil && fresh(p.rules) && (forall n string :: {has(p.rules, n)} has(p.rules, n) == (exists k int :: 0 <= k && k < idx1 && g.rules[k].name == n)) && (forall n string :: {has(p.rules, n)} has(p.rules, n) ==> p.rules[n] != nil && p.rules[n].name == n)
 //@   safety C11
 //@   frame C18
@@ -753,6 +788,26 @@ package builder
 //@   ensures [panic-is-error C11 C16 local] p.recover && e != nil ==> val == nil && err != nil
 //@   ensures [fail-is-error C12 local] !ok ==> val == nil && err != nil
 // the start rule is the rule named by the entrypoint; an unknown entrypoint is an error (C01)
+// the final "no match" error (C12): reported only when no other error was recorded, located at the
+// farthest failure position, listing exactly the recorded terminals: sorted, without duplicates,
+// "!." shown last as EOF
+//@ #if !lr
+//@   before parser.addErrAt assert [only-without-errors C12] len(*p.errs) == 0 && !ok
+//@   before parser.addErrAt assert [at-farthest C12] pos == p.maxFailPos
+//@   before parser.addErrAt assert [members C12] forall k int :: {expected[k]} 0 <= k && k < len(expected) ==> (eof && k == len(expected) - 1 && expected[k] == "EOF") || (expected[k] != "!." && InList(p.maxFailExpected, expected[k]))
+//@   before parser.addErrAt assert [complete C12] (forall j int :: {p.maxFailExpected[j]} 0 <= j && j < len(p.maxFailExpected) && p.maxFailExpected[j] != "!." ==> InList(expected, p.maxFailExpected[j])) && (eof == InList(p.maxFailExpected, "!.")) && (eof ==> len(expected) >= 1 && expected[len(expected)-1] == "EOF")
+//@   before parser.addErrAt assert [sorted-nodup C12] forall i int, j int :: {expected[i], expected[j]} 0 <= i && i < j && j < len(expected) - ite(eof, 1, 0) ==> expected[i] <= expected[j] && expected[i] != expected[j]
+//@   loop#1 invariant [set C12] maxFailExpectedMap != nil && fresh(maxFailExpectedMap) && (forall s string :: {has(maxFailExpectedMap, s)} has(maxFailExpectedMap, s) ==> InList(p.maxFailExpected, s)) && (forall j int :: {p.maxFailExpected[j]} 0 <= j && j < idx1 ==> has(maxFailExpectedMap, p.maxFailExpected[j])) && !ok && len(*p.errs) == 0 && p.maxFailExpected == coll1
+//@   loop#2 invariant [list C12] off(expected) == 0 && !ok && len(*p.errs) == 0 && (eof == InList(p.maxFailExpected, "!."))
+//@     | && (forall k int :: {expected[k]} 0 <= k && k < len(expected) ==> sel(visited2, expected[k]))
+//@     | && (forall s string :: {sel(visited2, s)} sel(visited2, s) ==> InList(expected, s))
+//@     | && (forall i int, j int :: {expected[i], expected[j]} 0 <= i && i < j && j < len(expected) ==> expected[i] != expected[j])
+//@     | && (forall s string :: {sel(dom2, s)} sel(dom2, s) ==> s != "!." && InList(p.maxFailExpected, s))
+//@     | && (forall j int :: {p.maxFailExpected[j]} 0 <= j && j < len(p.maxFailExpected) && p.maxFailExpected[j] != "!." ==> sel(dom2, p.maxFailExpected[j]))
+//@ #endif
+// the farthest-failure record starts out as the position of offset 0 (known finding F8: it does not when
+// the input starts with a newline)
+//@   before parser.parseRuleWrap assert [far-canon C12] FarCanon(p)
 //@   before parser.parseRuleWrap assert [entry C01] startRule != nil && startRule.name == p.entrypoint && Inv(p) && p.pt.offset == 0
 //@   safety C11
 //@   frame C18
@@ -767,12 +822,13 @@ package builder
 //@ func (p *parser) parseRuleRecursiveLeader(rule *rule) (val any, ok bool)
 //@   requires [inv] Inv(p) && rule != nil && rule.leader
 //@   modifies PS
-//@   panics [ctx C11] Ctx0(p)
+//@   panics [ctx C11] Ctx0(p) && DepthBal(p)
 //@   ensures [inv C01] Inv(p)
 //@   ensures [peg-rule C01] DR(rule, p.data, old(p.pt.offset), ok, p.pt.offset, val)
 //@   ensures [shape C01 C08] Shape(p, val, ok)
 //@   ensures [store C05] StoreC(p, ok)
 //@   ensures [stacks C02 C11 C14] Stacks(p)
+//@   ensures [depth C06] DepthBal(p)
 //@   ensures [invert C12] p.maxFailInvertExpected == old(p.maxFailInvertExpected)
 //@   ensures [budget C16] p.ExprCnt >= old(p.ExprCnt) && (old(p.ExprCnt) <= p.maxExprCnt ==> p.ExprCnt <= p.maxExprCnt)
 // the final result is what the memo holds for (start, rule)
@@ -786,6 +842,7 @@ package builder
 //@ #if state
 //@   before parser.setMemoized#2 assert [retain-no-state C08 C05] p.cur.state == lastState
 //@ #endif
+//@   loop#1 invariant [depth C06] DepthIn(p)
 //@   loop#1 invariant [inv] Inv(p) && p.pt == startMark && startMark == old(p.pt)
 //@   loop#1 invariant [seed C08] SP(p.data, lastResult.end) && lastResult.end.offset >= startMark.offset && (!lastResult.b ==> lastResult.end == startMark && lastResult.v == nil && depth == 0) && (depth > 0 ==> lastResult.b) && depth >= 0
 //@   loop#1 invariant [errs C08] *p.errs == lastErrors
@@ -800,12 +857,13 @@ package builder
 //@ func (p *parser) parseRuleRecursiveNoLeader(rule *rule) (val any, ok bool)
 //@   requires [inv] Inv(p) && rule != nil
 //@   modifies PS
-//@   panics [ctx C11] Ctx0(p)
+//@   panics [ctx C11] Ctx0(p) && DepthBal(p)
 //@   ensures [inv C01] Inv(p)
 //@   ensures [peg-rule C01] DR(rule, p.data, old(p.pt.offset), ok, p.pt.offset, val)
 //@   ensures [shape C01] Shape(p, val, ok)
 //@   ensures [store C05] StoreC(p, ok)
 //@   ensures [stacks C02 C11 C14] Stacks(p)
+//@   ensures [depth C06] DepthBal(p)
 //@   ensures [invert C12] p.maxFailInvertExpected == old(p.maxFailInvertExpected)
 //@   ensures [budget C16] p.ExprCnt >= old(p.ExprCnt) && (old(p.ExprCnt) <= p.maxExprCnt ==> p.ExprCnt <= p.maxExprCnt)
 //@   safety C11
@@ -867,12 +925,13 @@ package builder
 //@   requires [inv] Inv(p) && InRule(p) && IsNode(expr)
 //@   modifies PS
 //@   panics [budget-value C16] old(p.ExprCnt) + 1 > p.maxExprCnt ==> panicval == errMaxExprCnt
-//@   panics [ctx C11] Ctx0(p)
+//@   panics [ctx C11] Ctx0(p) && DepthBal(p)
 //@   ensures [inv C01] Inv(p) && InRule(p)
 //@   ensures [peg C01] D(expr, p.data, old(p.pt.offset), ok, p.pt.offset, val)
 //@   ensures [shape C01] Shape(p, val, ok)
 //@   ensures [store C05] StoreC(p, ok)
 //@   ensures [stacks C02 C14] Stacks(p)
+//@   ensures [depth C06] DepthBal(p)
 //@   ensures [invert C12] p.maxFailInvertExpected == old(p.maxFailInvertExpected)
 //@   ensures [charges C16] p.ExprCnt > old(p.ExprCnt)
 //@   ensures [budget C16] p.ExprCnt <= p.maxExprCnt
@@ -882,12 +941,13 @@ package builder
 //@ func (p *parser) parseExprWrap(expr any) (val any, ok bool)
 //@   requires [inv] Inv(p) && InRule(p) && IsNode(expr)
 //@   modifies PS
-//@   panics [ctx C11] Ctx0(p)
+//@   panics [ctx C11] Ctx0(p) && DepthBal(p)
 //@   ensures [inv C01] Inv(p) && InRule(p)
 //@   ensures [peg C01 C06] D(expr, p.data, old(p.pt.offset), ok, p.pt.offset, val)
 //@   ensures [shape C01 C06] Shape(p, val, ok)
 //@   ensures [store C05] StoreC(p, ok)
 //@   ensures [stacks C02 C14] Stacks(p)
+//@   ensures [depth C06] DepthBal(p)
 //@   ensures [invert C12] p.maxFailInvertExpected == old(p.maxFailInvertExpected)
 //@   ensures [charges C16] p.ExprCnt > old(p.ExprCnt)
 //@   ensures [budget C16] p.ExprCnt >= old(p.ExprCnt) && (old(p.ExprCnt) <= p.maxExprCnt ==> p.ExprCnt <= p.maxExprCnt)
@@ -906,12 +966,13 @@ package builder
 //@ func (p *parser) parseRule(rule *rule) (val any, ok bool)
 //@   requires [inv] Inv(p) && rule != nil
 //@   modifies PS
-//@   panics [ctx C11] Ctx0(p)
+//@   panics [ctx C11] Ctx0(p) && DepthBal(p)
 //@   ensures [inv C01] Inv(p)
 //@   ensures [peg-rule C01] DR(rule, p.data, old(p.pt.offset), ok, p.pt.offset, val)
 //@   ensures [shape C01] Shape(p, val, ok)
 //@   ensures [store C05] StoreC(p, ok)
 //@   ensures [stacks C02 C11 C14] Stacks(p)
+//@   ensures [depth C06] DepthBal(p)
 //@   ensures [invert C12] p.maxFailInvertExpected == old(p.maxFailInvertExpected)
 //@   ensures [budget C16] p.ExprCnt >= old(p.ExprCnt) && (old(p.ExprCnt) <= p.maxExprCnt ==> p.ExprCnt <= p.maxExprCnt)
 //@   safety C11
@@ -920,12 +981,13 @@ package builder
 //@ func (p *parser) parseRuleWrap(rule *rule) (val any, ok bool)
 //@   requires [inv] Inv(p) && rule != nil
 //@   modifies PS
-//@   panics [ctx C11] Ctx0(p)
+//@   panics [ctx C11] Ctx0(p) && DepthBal(p)
 //@   ensures [inv C01] Inv(p)
 //@   ensures [peg-rule C01 C06] DR(rule, p.data, old(p.pt.offset), ok, p.pt.offset, val)
 //@   ensures [shape C01] Shape(p, val, ok)
 //@   ensures [store C05] StoreC(p, ok)
 //@   ensures [stacks C02 C11 C14] Stacks(p)
+//@   ensures [depth C06] DepthBal(p)
 //@   ensures [invert C12] p.maxFailInvertExpected == old(p.maxFailInvertExpected)
 //@   ensures [budget C16] p.ExprCnt >= old(p.ExprCnt) && (old(p.ExprCnt) <= p.maxExprCnt ==> p.ExprCnt <= p.maxExprCnt)
 //@ #if lr
@@ -944,12 +1006,13 @@ package builder
 //@   requires [inv] Inv(p) && InRule(p) && ref != nil
 //@   requires [budget-in C16] p.ExprCnt <= p.maxExprCnt
 //@   modifies PS
-//@   panics [ctx C11] Ctx0(p)
+//@   panics [ctx C11] Ctx0(p) && DepthBal(p)
 //@   ensures [inv C01] Inv(p) && InRule(p)
 //@   ensures [peg-ref C01] D(ref, p.data, old(p.pt.offset), ok, p.pt.offset, val)
 //@   ensures [shape C01] Shape(p, val, ok)
 //@   ensures [store C05] StoreC(p, ok)
 //@   ensures [stacks C02 C14] Stacks(p)
+//@   ensures [depth C06] DepthBal(p)
 //@   ensures [invert C12] p.maxFailInvertExpected == old(p.maxFailInvertExpected)
 //@   ensures [budget C16] Budget(p)
 //@   safety C11
@@ -959,14 +1022,16 @@ package builder
 //@   requires [inv] Inv(p) && InRule(p) && seq != nil
 //@   requires [budget-in C16] p.ExprCnt <= p.maxExprCnt
 //@   modifies PS
-//@   panics [ctx C11] Ctx0(p)
+//@   panics [ctx C11] Ctx0(p) && DepthBal(p)
 //@   ensures [inv C01] Inv(p) && InRule(p)
 //@   ensures [peg-seq C01] D(seq, p.data, old(p.pt.offset), ok, p.pt.offset, val)
 //@   ensures [shape C01] Shape(p, val, ok)
 //@   ensures [store C05] StoreC(p, ok)
 //@   ensures [stacks C02 C14] Stacks(p)
+//@   ensures [depth C06] DepthBal(p)
 //@   ensures [invert C12] p.maxFailInvertExpected == old(p.maxFailInvertExpected)
 //@   ensures [budget C16] Budget(p)
+//@   loop#1 invariant [depth C06] DepthIn(p)
 //@   loop#1 invariant [inv] Inv(p) && InRule(p) && pt == old(p.pt)
 //@ #if state
 //@   loop#1 invariant [snap C05] Snap(p, state) && LoopStore(p)
@@ -981,15 +1046,17 @@ package builder
 //@   requires [inv] Inv(p) && InRule(p) && ch != nil
 //@   requires [budget-in C16] p.ExprCnt <= p.maxExprCnt
 //@   modifies PS
-//@   panics [ctx C11] Ctx0(p)
+//@   panics [ctx C11] Ctx0(p) && DepthBal(p)
 //@   ensures [inv C01] Inv(p) && InRule(p)
 //@   ensures [peg-choice C01] D(ch, p.data, old(p.pt.offset), ok, p.pt.offset, val)
 //@   ensures [shape C01] Shape(p, val, ok)
 //@   ensures [store C05] StoreC(p, ok)
 //@   ensures [scope C02] TopKept(p)
 //@   ensures [stacks C02 C14] Stacks(p)
+//@   ensures [depth C06] DepthBal(p)
 //@   ensures [invert C12] p.maxFailInvertExpected == old(p.maxFailInvertExpected)
 //@   ensures [budget C16] Budget(p)
+//@   loop#1 invariant [depth C06] DepthIn(p)
 //@   loop#1 invariant [scope C02] TopKept(p)
 //@   loop#1 invariant [inv] Inv(p) && InRule(p) && p.pt == old(p.pt)
 //@   loop#1 invariant [store C05] StoreSame(p) && LoopStore(p)
@@ -1003,7 +1070,7 @@ package builder
 //@   requires [inv] Inv(p) && InRule(p) && and != nil
 //@   requires [budget-in C16] p.ExprCnt <= p.maxExprCnt
 //@   modifies PS
-//@   panics [ctx C11] Ctx0(p)
+//@   panics [ctx C11] Ctx0(p) && DepthBal(p)
 //@   ensures [inv C01] Inv(p) && InRule(p)
 //@   ensures [peg-and C01] D(and, p.data, old(p.pt.offset), ok, p.pt.offset, val)
 //@   ensures [zero-width C01] p.pt == old(p.pt) && val == nil
@@ -1011,6 +1078,7 @@ package builder
 //@   ensures [store C05] StoreC(p, ok)
 //@   ensures [scope C02] TopKept(p)
 //@   ensures [stacks C02 C14] Stacks(p)
+//@   ensures [depth C06] DepthBal(p)
 //@   ensures [invert C12] p.maxFailInvertExpected == old(p.maxFailInvertExpected)
 //@   ensures [budget C16] Budget(p)
 //@   safety C11
@@ -1020,7 +1088,7 @@ package builder
 //@   requires [inv] Inv(p) && InRule(p) && not != nil
 //@   requires [budget-in C16] p.ExprCnt <= p.maxExprCnt
 //@   modifies PS
-//@   panics [ctx C11] Ctx0(p)
+//@   panics [ctx C11] Ctx0(p) && DepthBal(p)
 //@   ensures [inv C01] Inv(p) && InRule(p)
 //@   ensures [peg-not C01] D(not, p.data, old(p.pt.offset), ok, p.pt.offset, val)
 //@   ensures [zero-width C01] p.pt == old(p.pt) && val == nil
@@ -1028,6 +1096,7 @@ package builder
 //@   ensures [store C05] StoreC(p, ok)
 //@   ensures [scope C02] TopKept(p)
 //@   ensures [stacks C02 C14] Stacks(p)
+//@   ensures [depth C06] DepthBal(p)
 //@   ensures [invert C12] p.maxFailInvertExpected == old(p.maxFailInvertExpected)
 //@   ensures [budget C16] Budget(p)
 //@   before parser.parseExprWrap assert [inverted C12] p.maxFailInvertExpected == !old(p.maxFailInvertExpected)
@@ -1038,13 +1107,14 @@ package builder
 //@   requires [inv] Inv(p) && InRule(p) && expr != nil
 //@   requires [budget-in C16] p.ExprCnt <= p.maxExprCnt
 //@   modifies PS
-//@   panics [ctx C11] Ctx0(p)
+//@   panics [ctx C11] Ctx0(p) && DepthBal(p)
 //@   ensures [inv C01] Inv(p) && InRule(p)
 //@   ensures [peg-opt C01] D(expr, p.data, old(p.pt.offset), ok, p.pt.offset, val)
 //@   ensures [always C01] ok && p.pt.offset >= old(p.pt.offset)
 //@   ensures [store C05] StoreC(p, ok)
 //@   ensures [scope C02] TopKept(p)
 //@   ensures [stacks C02 C14] Stacks(p)
+//@   ensures [depth C06] DepthBal(p)
 //@   ensures [invert C12] p.maxFailInvertExpected == old(p.maxFailInvertExpected)
 //@   ensures [budget C16] Budget(p)
 //@   safety C11
@@ -1054,15 +1124,17 @@ package builder
 //@   requires [inv] Inv(p) && InRule(p) && expr != nil
 //@   requires [budget-in C16] p.ExprCnt <= p.maxExprCnt
 //@   modifies PS
-//@   panics [ctx C11] Ctx0(p)
+//@   panics [ctx C11] Ctx0(p) && DepthBal(p)
 //@   ensures [inv C01] Inv(p) && InRule(p)
 //@   ensures [peg-star C01] D(expr, p.data, old(p.pt.offset), ok, p.pt.offset, val)
 //@   ensures [always C01] ok && p.pt.offset >= old(p.pt.offset)
 //@   ensures [store C05] StoreC(p, ok)
 //@   ensures [scope C02] TopKept(p)
 //@   ensures [stacks C02 C14] Stacks(p)
+//@   ensures [depth C06] DepthBal(p)
 //@   ensures [invert C12] p.maxFailInvertExpected == old(p.maxFailInvertExpected)
 //@   ensures [budget C16] Budget(p)
+//@   loop#1 invariant [depth C06] DepthIn(p)
 //@   loop#1 invariant [scope C02] TopKept(p)
 //@   loop#1 invariant [inv] Inv(p) && InRule(p)
 //@   loop#1 invariant [store C05] LoopStore(p)
@@ -1077,15 +1149,17 @@ package builder
 //@   requires [inv] Inv(p) && InRule(p) && expr != nil
 //@   requires [budget-in C16] p.ExprCnt <= p.maxExprCnt
 //@   modifies PS
-//@   panics [ctx C11] Ctx0(p)
+//@   panics [ctx C11] Ctx0(p) && DepthBal(p)
 //@   ensures [inv C01] Inv(p) && InRule(p)
 //@   ensures [peg-plus C01] D(expr, p.data, old(p.pt.offset), ok, p.pt.offset, val)
 //@   ensures [shape C01] Shape(p, val, ok)
 //@   ensures [store C05] StoreC(p, ok)
 //@   ensures [scope C02] TopKept(p)
 //@   ensures [stacks C02 C14] Stacks(p)
+//@   ensures [depth C06] DepthBal(p)
 //@   ensures [invert C12] p.maxFailInvertExpected == old(p.maxFailInvertExpected)
 //@   ensures [budget C16] Budget(p)
+//@   loop#1 invariant [depth C06] DepthIn(p)
 //@   loop#1 invariant [scope C02] TopKept(p)
 //@   loop#1 invariant [inv] Inv(p) && InRule(p)
 //@   loop#1 invariant [store C05] LoopStore(p)
@@ -1101,12 +1175,13 @@ package builder
 //@   requires [inv] Inv(p) && InRule(p) && lab != nil
 //@   requires [budget-in C16] p.ExprCnt <= p.maxExprCnt
 //@   modifies PS
-//@   panics [ctx C11] Ctx0(p)
+//@   panics [ctx C11] Ctx0(p) && DepthBal(p)
 //@   ensures [inv C01] Inv(p) && InRule(p)
 //@   ensures [peg-label C01] D(lab, p.data, old(p.pt.offset), ok, p.pt.offset, val)
 //@   ensures [shape C01] Shape(p, val, ok)
 //@   ensures [store C05] StoreC(p, ok)
 //@   ensures [stacks C02 C14] Stacks(p)
+//@   ensures [depth C06] DepthBal(p)
 //@   ensures [bind-only C02] forall l string :: {has(p.vstack[len(p.vstack)-1], l)} l != lab.label ==> has(p.vstack[len(p.vstack)-1], l) == old(has(p.vstack[len(p.vstack)-1], l)) && p.vstack[len(p.vstack)-1][l] == old(p.vstack[len(p.vstack)-1][l])
 //@   ensures [bind C02] ok && lab.label != "" ==> has(p.vstack[len(p.vstack)-1], lab.label) && p.vstack[len(p.vstack)-1][lab.label] == val
 //@   ensures [invert C12] p.maxFailInvertExpected == old(p.maxFailInvertExpected)
@@ -1118,13 +1193,14 @@ package builder
 //@   requires [inv] Inv(p) && InRule(p) && act != nil
 //@   requires [budget-in C16] p.ExprCnt <= p.maxExprCnt
 //@   modifies PS
-//@   panics [ctx C11] Ctx0(p)
+//@   panics [ctx C11] Ctx0(p) && DepthBal(p)
 //@   ensures [inv C01] Inv(p) && InRule(p)
 //@   ensures [peg-action C01] D(act, p.data, old(p.pt.offset), ok, p.pt.offset, val)
 //@   ensures [shape C01] Shape(p, val, ok)
 //@   ensures [value C01 C02 local] ok ==> val == actVal
 //@   ensures [store C05] StoreC(p, ok)
 //@   ensures [stacks C02 C14] Stacks(p)
+//@   ensures [depth C06] DepthBal(p)
 //@   ensures [invert C12] p.maxFailInvertExpected == old(p.maxFailInvertExpected)
 //@   ensures [budget C16] Budget(p)
 //@   ensures [err-recorded C11 local] ok && err != nil ==> len(*p.errs) >= 1 && IsPErr((*p.errs)[len(*p.errs)-1], err, old(p.pt.position))
@@ -1137,7 +1213,7 @@ package builder
 //@   requires [inv] Inv(p) && InRule(p) && and != nil
 //@   requires [budget-in C16] p.ExprCnt <= p.maxExprCnt
 //@   modifies PS
-//@   panics [ctx C11] Ctx0(p)
+//@   panics [ctx C11] Ctx0(p) && DepthBal(p)
 //@   ensures [inv C01] Inv(p) && InRule(p)
 //@   ensures [peg-andcode C01] D(and, p.data, old(p.pt.offset), res, p.pt.offset, val)
 //@   ensures [zero-width C01 C02] p.pt == old(p.pt) && val == nil
@@ -1146,6 +1222,7 @@ package builder
 //@   ensures [store C05] StoreC(p, res)
 //@   ensures [scope C02] TopKept(p)
 //@   ensures [stacks C02 C14] Stacks(p)
+//@   ensures [depth C06] DepthBal(p)
 //@   ensures [invert C12] p.maxFailInvertExpected == old(p.maxFailInvertExpected)
 //@   ensures [budget C16] Budget(p)
 //@   ensures [err-recorded C11 local] err != nil ==> len(*p.errs) >= 1 && IsPErr((*p.errs)[len(*p.errs)-1], err, p.pt.position)
@@ -1158,7 +1235,7 @@ package builder
 //@   requires [inv] Inv(p) && InRule(p) && not != nil
 //@   requires [budget-in C16] p.ExprCnt <= p.maxExprCnt
 //@   modifies PS
-//@   panics [ctx C11] Ctx0(p)
+//@   panics [ctx C11] Ctx0(p) && DepthBal(p)
 //@   ensures [inv C01] Inv(p) && InRule(p)
 //@   ensures [peg-notcode C01] D(not, p.data, old(p.pt.offset), res, p.pt.offset, val)
 //@   ensures [zero-width C01 C02] p.pt == old(p.pt) && val == nil
@@ -1167,6 +1244,7 @@ package builder
 //@   ensures [store C05] StoreC(p, res)
 //@   ensures [scope C02] TopKept(p)
 //@   ensures [stacks C02 C14] Stacks(p)
+//@   ensures [depth C06] DepthBal(p)
 //@   ensures [invert C12] p.maxFailInvertExpected == old(p.maxFailInvertExpected)
 //@   ensures [budget C16] Budget(p)
 //@   ensures [err-recorded C11 local] err != nil ==> len(*p.errs) >= 1 && IsPErr((*p.errs)[len(*p.errs)-1], err, p.pt.position)
@@ -1179,12 +1257,13 @@ package builder
 //@   requires [inv] Inv(p) && InRule(p) && state != nil
 //@   requires [budget-in C16] p.ExprCnt <= p.maxExprCnt
 //@   modifies PS
-//@   panics [ctx C11] Ctx0(p)
+//@   panics [ctx C11] Ctx0(p) && DepthBal(p)
 //@   ensures [inv C01] Inv(p) && InRule(p)
 //@   ensures [peg-statecode C01] D(state, p.data, old(p.pt.offset), ok, p.pt.offset, val)
 //@   ensures [zero-width C01 C02] p.pt == old(p.pt) && val == nil && ok
 //@   ensures [store C05] StoreC(p, ok)
 //@   ensures [stacks C02 C14] Stacks(p)
+//@   ensures [depth C06] DepthBal(p)
 //@   ensures [invert C12] p.maxFailInvertExpected == old(p.maxFailInvertExpected)
 //@   ensures [budget C16] Budget(p)
 //@   ensures [err-recorded C11 local] err != nil ==> len(*p.errs) >= 1 && IsPErr((*p.errs)[len(*p.errs)-1], err, p.pt.position)
@@ -1197,12 +1276,13 @@ package builder
 //@   requires [inv] Inv(p) && InRule(p) && recover != nil
 //@   requires [budget-in C16] p.ExprCnt <= p.maxExprCnt
 //@   modifies PS
-//@   panics [ctx C11] Ctx0(p)
+//@   panics [ctx C11] Ctx0(p) && DepthBal(p)
 //@   ensures [inv C01] Inv(p) && InRule(p)
 //@   ensures [peg-recovery C01] D(recover, p.data, old(p.pt.offset), ok, p.pt.offset, val)
 //@   ensures [shape C01] Shape(p, val, ok)
 //@   ensures [store C05] StoreC(p, ok)
 //@   ensures [stacks C02 C14] Stacks(p)
+//@   ensures [depth C06] DepthBal(p)
 //@   ensures [invert C12] p.maxFailInvertExpected == old(p.maxFailInvertExpected)
 //@   ensures [budget C16] Budget(p)
 // the handlers are in force exactly while the guarded expression is evaluated (C14)
@@ -1214,15 +1294,17 @@ package builder
 //@   requires [inv] Inv(p) && InRule(p) && expr != nil
 //@   requires [budget-in C16] p.ExprCnt <= p.maxExprCnt
 //@   modifies PS
-//@   panics [ctx C11] Ctx0(p)
+//@   panics [ctx C11] Ctx0(p) && DepthBal(p)
 //@   ensures [inv C01] Inv(p) && InRule(p)
 //@   ensures [peg-throw C01] D(expr, p.data, old(p.pt.offset), ok, p.pt.offset, val)
 //@   ensures [shape C01 C14] Shape(p, val, ok)
 //@   ensures [throw C14] TH(old(p.recoveryStack), expr.label, p.data, old(p.pt.offset), ok, p.pt.offset, val)
 //@   ensures [store C05] StoreC(p, ok)
 //@   ensures [stacks C02 C14] Stacks(p)
+//@   ensures [depth C06] DepthBal(p)
 //@   ensures [invert C12] p.maxFailInvertExpected == old(p.maxFailInvertExpected)
 //@   ensures [budget C16] Budget(p)
+//@   loop#1 invariant [depth C06] DepthIn(p)
 //@   loop#1 invariant [inv] Inv(p) && InRule(p) && p.pt == old(p.pt) && i < len(p.recoveryStack)
 //@   loop#1 invariant [store C05] StoreSame(p) && LoopStore(p)
 //@   loop#1 invariant [search C14] i >= 0 - 1 && ThrowPre(old(p.recoveryStack), i, expr.label, p.data, old(p.pt.offset))
